@@ -23,6 +23,8 @@ RegRow(nn) ==
      nco    |-> RT(nn).nco,
      loops  |-> SetToSeq(Loops(nn)),
      pass   |-> PassStr(nn),
+     plot   |-> [fills |-> PlotPlan(nn).fills, outlines |-> PlotPlan(nn).outlines, bounded |-> PlotPlan(nn).bounded,
+                 corners |-> SetToSeq(PlotPlan(nn).corners)],
      mom    |-> [kk \in 1..Len(ExpSeq) |-> Moment(nn, ExpSeq[kk])]]
 
 PairRow(ra, rb) == [cls |-> ClassOf(ra, rb), cross |-> SetToSeq(CrossPts(ra, rb))]
